@@ -1055,3 +1055,387 @@ def inline_generator_helpers(trees: dict[str, ast.Module], known_funcs: set[str]
                 owner.append(ast.Pass())
             done[f"{mname}:{cn + '.' if cn else ''}{fnm}"] = expanded[key]
     return done
+
+
+# ------------------------------------------------------------------ bound methods cached in locals
+
+def inline_bound_method_locals(trees: dict[str, ast.Module]) -> int:
+    """`check_abort = state.check_abort` ... `check_abort(attempt)`: a local bound once, at the top level of a function,
+    to an attribute of a name that is itself never re-bound, and used only as the function of calls, is that attribute
+    (a bound method looked up early instead of late; the attribute name is never assigned anywhere in the package, so
+    both look-ups find the same function).  The calls are rewritten to `state.check_abort(attempt)` in memory."""
+    assigned_attrs = {n.attr for t in trees.values() for n in ast.walk(t) if isinstance(n, ast.Attribute) and isinstance(n.ctx, (ast.Store, ast.Del))}
+    props = {st.name for t in trees.values() for c in ast.walk(t) if isinstance(c, ast.ClassDef) for st in c.body if isinstance(st, (ast.FunctionDef, ast.AsyncFunctionDef)) and any(ast.unparse(d).split(".")[-1] in ("property", "cached_property") for d in st.decorator_list)}
+    n_done = 0
+    for tree in trees.values():
+        for fn in [n for n in ast.walk(tree) if isinstance(n, (ast.FunctionDef, ast.AsyncFunctionDef))]:
+            own = [n for n in ast.walk(fn)]
+            names: dict[str, list[ast.Name]] = {}
+            for n in own:
+                if isinstance(n, ast.Name):
+                    names.setdefault(n.id, []).append(n)
+            params = {a.arg for a in fn.args.args + fn.args.kwonlyargs + fn.args.posonlyargs}
+            call_funcs = {id(n.func) for n in own if isinstance(n, ast.Call)}
+            for st in list(fn.body):
+                if not (isinstance(st, ast.Assign) and len(st.targets) == 1 and isinstance(st.targets[0], ast.Name) and isinstance(st.value, ast.Attribute)):
+                    continue
+                fresh_recv = not isinstance(st.value.value, ast.Name)
+                if fresh_recv and not (isinstance(st.value.value, ast.Call) and isinstance(st.value.value.func, ast.Name)):
+                    continue
+                # `record = _Collector(timeline).record`: the receiver gets a name of its own first
+                v, attr = st.targets[0].id, st.value.attr
+                x = f"__recv_{v}" if fresh_recv else st.value.value.id
+                if attr in assigned_attrs or attr in props or v in params or v == x:
+                    continue
+                vs = names.get(v, [])
+                if sum(1 for n in vs if isinstance(n.ctx, (ast.Store, ast.Del))) != 1:
+                    continue
+                loads = [n for n in vs if isinstance(n.ctx, ast.Load)]
+                if not loads or any(id(n) not in call_funcs for n in loads):
+                    continue
+                xs = [n for n in names.get(x, []) if isinstance(n.ctx, (ast.Store, ast.Del))]
+                if not fresh_recv and not ((x in params and not xs) or (x not in params and len(xs) == 1 and xs[0].lineno < st.lineno)):
+                    continue
+                if fresh_recv and x in names:
+                    continue
+                if any(n.lineno < st.lineno for n in loads):
+                    continue
+                # nested functions that re-bind either name would change the meaning: keep it simple
+                if any(isinstance(n, (ast.Global, ast.Nonlocal)) for n in own):
+                    continue
+                for n in own:
+                    if isinstance(n, ast.Call) and isinstance(n.func, ast.Name) and n.func.id == v:
+                        n.func = ast.copy_location(ast.Attribute(value=ast.copy_location(ast.Name(id=x, ctx=ast.Load()), n.func), attr=attr, ctx=ast.Load()), n.func)
+                if fresh_recv:
+                    st.targets[0].id = x
+                    st.value = st.value.value
+                else:
+                    fn.body.remove(st)
+                n_done += 1
+    return n_done
+
+
+# ------------------------------------------------------------------ lock-holding context managers
+
+def unwrap_lock_holders(trees: dict[str, ast.Module], known_classes: set[str]) -> int:
+    """A private class that does nothing but hold a lock for a block -
+
+        class _Held:
+            def __init__(self, lock): self._lock = lock
+            def __enter__(self): self._lock.acquire()
+            def __exit__(self, *exc): self._lock.release(); return False
+
+    - used as `with _Held(self._lock):` is `with self._lock:` (blocking acquire on entry, release on every exit,
+    exceptions never suppressed: PEP 343 and the context-manager protocol of threading.Lock).  The same for a zero-argument
+    method that only returns such a holder (`def _guard(self): return _Held(self._lock)`; `with self._guard():`).
+    Rewritten in memory to the plain form the lock rules read."""
+    holders: set[str] = set()
+    for mname, tree in trees.items():
+        for c in tree.body:
+            if not isinstance(c, ast.ClassDef) or f"{mname}:{c.name}" in known_classes or c.bases:
+                continue
+            ms = {m.name: m for m in c.body if isinstance(m, ast.FunctionDef)}
+            if set(ms) != {"__init__", "__enter__", "__exit__"}:
+                continue
+
+            def body(fn: ast.FunctionDef) -> list[ast.stmt]:
+                return [b for b in fn.body if not _is_docstring(b)]
+
+            ini, ent, ext = body(ms["__init__"]), body(ms["__enter__"]), body(ms["__exit__"])
+            if len(ms["__init__"].args.args) != 2 or len(ini) != 1:
+                continue
+            st = ini[0]
+            tgt = st.targets[0] if isinstance(st, ast.Assign) and len(st.targets) == 1 else (st.target if isinstance(st, ast.AnnAssign) else None)
+            if not (isinstance(tgt, ast.Attribute) and isinstance(st.value, ast.Name) and st.value.id == ms["__init__"].args.args[1].arg):
+                continue
+            fld = tgt.attr
+
+            def is_op(s: ast.stmt, op: str) -> bool:
+                v = s.value if isinstance(s, (ast.Expr, ast.Return)) else None
+                return isinstance(v, ast.Call) and isinstance(v.func, ast.Attribute) and v.func.attr == op and not v.args and not v.keywords and isinstance(v.func.value, ast.Attribute) and v.func.value.attr == fld and isinstance(v.func.value.value, ast.Name)
+
+            def is_falsy_return(s: ast.stmt) -> bool:
+                return isinstance(s, ast.Return) and (s.value is None or (isinstance(s.value, ast.Constant) and not s.value.value))
+
+            if not (ent and is_op(ent[0], "acquire") and all(is_falsy_return(s) or (isinstance(s, ast.Return) and isinstance(s.value, ast.Constant)) for s in ent[1:]) and len(ent) <= 2):
+                continue
+            if not (ext and isinstance(ext[0], ast.Expr) and is_op(ext[0], "release") and all(is_falsy_return(s) for s in ext[1:]) and len(ext) <= 2):
+                continue
+            holders.add(c.name)
+    if not holders:
+        return 0
+
+    def holder_arg(e: ast.expr) -> ast.expr | None:
+        if isinstance(e, ast.Call) and isinstance(e.func, ast.Name) and e.func.id in holders and len(e.args) == 1 and not e.keywords:
+            return e.args[0]
+        return None
+
+    # zero-argument methods / functions that only return a holder
+    makers: dict[str, tuple[str | None, ast.expr]] = {}
+    for tree in trees.values():
+        for fn in [n for n in ast.walk(tree) if isinstance(n, ast.FunctionDef)]:
+            b = [s for s in fn.body if not _is_docstring(s)]
+            if len(b) == 1 and isinstance(b[0], ast.Return) and b[0].value is not None and holder_arg(b[0].value) is not None and len(fn.args.args) <= 1 and not fn.decorator_list:
+                makers[fn.name] = (fn.args.args[0].arg if fn.args.args else None, holder_arg(b[0].value))
+    n_done = 0
+    import copy
+
+    for tree in trees.values():
+        for w in [n for n in ast.walk(tree) if isinstance(n, ast.With)]:
+            for it in w.items:
+                if it.optional_vars is not None:
+                    continue
+                e = it.context_expr
+                a = holder_arg(e)
+                if a is not None:
+                    it.context_expr = a
+                    n_done += 1
+                elif isinstance(e, ast.Call) and not e.args and not e.keywords and isinstance(e.func, ast.Attribute) and isinstance(e.func.value, ast.Name) and e.func.attr in makers and makers[e.func.attr][0] is not None:
+                    sn, expr = makers[e.func.attr]
+                    it.context_expr = ast.copy_location(_Subst({sn: e.func.value}, {}).visit(copy.deepcopy(expr)), e)
+                    ast.fix_missing_locations(it.context_expr)
+                    n_done += 1
+    # a maker nobody refers to any more is gone with its uses
+    for name in makers:
+        if any((isinstance(n, ast.Attribute) and n.attr == name) or (isinstance(n, ast.Name) and n.id == name) or (isinstance(n, ast.alias) and n.name == name) for t in trees.values() for n in ast.walk(t)):
+            continue
+        for t in trees.values():
+            for owner in [t] + [c for c in ast.walk(t) if isinstance(c, ast.ClassDef)]:
+                for st in list(owner.body):
+                    if isinstance(st, ast.FunctionDef) and st.name == name:
+                        owner.body.remove(st)
+                        if not owner.body:
+                            owner.body.append(ast.Pass())
+    return n_done
+
+
+# ------------------------------------------------------------------ private result records back to tuples
+
+def tuple_result_records(trees: dict[str, ast.Module], known_classes: set[str]) -> dict[str, list[str]]:
+    """`return _AttemptHooks(start=start, end=end)` ... `hooks = _resolve_attempt_hooks(...)`; `hooks.start`: a private
+    plain record (dataclass / NamedTuple without methods, unknown to the rules) that is only ever built in `return`
+    statements and only ever read field by field from a local bound to the call is a tuple with names.  Rewritten in
+    memory to the tuple: `return (start, end)` (field order) and `hooks[0]`.  One call site that does anything else with
+    the result leaves the record alone."""
+    import copy
+
+    recs: dict[str, list[tuple[str, ast.expr | None]]] = {}
+    for mname, tree in trees.items():
+        for name, fields in _record_fields(tree).items():
+            if f"{mname}:{name}" not in known_classes and name.startswith("_"):
+                if name in recs:
+                    recs[name] = []  # two private records of one name: leave both
+                else:
+                    recs[name] = fields
+    recs = {k: v for k, v in recs.items() if v}
+    if not recs:
+        return {}
+    done: dict[str, list[str]] = {}
+    for R, fields in recs.items():
+        fnames = [f for f, _ in fields]
+        ctor_calls = [n for t in trees.values() for n in ast.walk(t) if isinstance(n, ast.Call) and isinstance(n.func, ast.Name) and n.func.id == R]
+        other_refs = [n for t in trees.values() for n in ast.walk(t) if isinstance(n, ast.Name) and n.id == R and isinstance(n.ctx, ast.Load)]
+        # producers: functions all of whose value-returns are `return R(...)`
+        producers: dict[str, ast.AST] = {}
+        returned_ctor: set[int] = set()
+        ok = True
+        for t in trees.values():
+            for fn in [n for n in ast.walk(t) if isinstance(n, (ast.FunctionDef, ast.AsyncFunctionDef))]:
+                rets = [n for n in _own_fn_nodes(fn) if isinstance(n, ast.Return) and n.value is not None]
+                mine = [r for r in rets if isinstance(r.value, ast.Call) and isinstance(r.value.func, ast.Name) and r.value.func.id == R]
+                if not mine:
+                    continue
+                if len(mine) != len(rets) or fn.name in producers:
+                    ok = False
+                    break
+                producers[fn.name] = fn
+                returned_ctor |= {id(r.value) for r in mine}
+            if not ok:
+                break
+        if not ok or not producers or any(id(c) not in returned_ctor for c in ctor_calls):
+            continue
+        # the class name may also appear in annotations (return types, locals): those are not uses of a value
+        ann_ids: set[int] = set()
+        for t in trees.values():
+            for n in ast.walk(t):
+                for a in ([n.returns] if isinstance(n, (ast.FunctionDef, ast.AsyncFunctionDef)) and n.returns is not None else []) + ([n.annotation] if isinstance(n, (ast.AnnAssign, ast.arg)) and n.annotation is not None else []):
+                    ann_ids |= {id(x) for x in ast.walk(a)}
+        if any(id(n) not in ann_ids and not any(n is c.func for c in ctor_calls) for n in other_refs):
+            continue
+        # constructor bindings
+        tuples: dict[int, ast.Tuple] = {}
+        for c in ctor_calls:
+            if any(isinstance(a, ast.Starred) for a in c.args) or any(k.arg is None or k.arg not in fnames for k in c.keywords) or len(c.args) > len(fnames):
+                ok = False
+                break
+            vals: dict[str, ast.expr] = dict(zip(fnames, c.args))
+            for k in c.keywords:
+                if k.arg in vals:
+                    ok = False
+                vals[k.arg] = k.value
+            for f, d in fields:
+                if f not in vals:
+                    dv = _default_value(d)
+                    if dv is None:
+                        ok = False
+                        break
+                    vals[f] = dv
+            if not ok:
+                break
+            # keyword arguments are evaluated in the order written; the tuple evaluates in field order: plain values only
+            if [k.arg for k in c.keywords] != [f for f in fnames if f in {k.arg for k in c.keywords}] and not all(_simple_arg(v) for v in vals.values()):
+                ok = False
+                break
+            tuples[id(c)] = ast.Tuple(elts=[vals[f] for f in fnames], ctx=ast.Load())
+        if not ok:
+            continue
+        # consumers
+        rewrites: list[tuple[ast.Attribute, int]] = []
+        for t in trees.values():
+            for fn in [n for n in ast.walk(t) if isinstance(n, (ast.FunctionDef, ast.AsyncFunctionDef))]:
+                own = list(_own_fn_nodes(fn))
+                par: dict[int, ast.AST] = {}
+                for n in own:
+                    for ch in ast.iter_child_nodes(n):
+                        par[id(ch)] = n
+                for c in [n for n in own if isinstance(n, ast.Call) and ((isinstance(n.func, ast.Name) and n.func.id in producers) or (isinstance(n.func, ast.Attribute) and n.func.attr in producers))]:
+                    p_ = par.get(id(c))
+                    if isinstance(p_, ast.Await):
+                        c, p_ = p_, par.get(id(p_))
+                    if isinstance(p_, ast.Attribute) and p_.value is c and p_.attr in fnames and isinstance(p_.ctx, ast.Load):
+                        rewrites.append((p_, fnames.index(p_.attr)))
+                        continue
+                    if isinstance(p_, (ast.Assign, ast.AnnAssign)) and p_.value is c:
+                        tg = p_.targets[0] if isinstance(p_, ast.Assign) and len(p_.targets) == 1 else (p_.target if isinstance(p_, ast.AnnAssign) else None)
+                        if isinstance(tg, ast.Name):
+                            uses = [n for n in own if isinstance(n, ast.Name) and n.id == tg.id]
+                            if sum(1 for n in uses if isinstance(n.ctx, (ast.Store, ast.Del))) == 1 and all(isinstance(par.get(id(n)), ast.Attribute) and par[id(n)].attr in fnames and isinstance(par[id(n)].ctx, ast.Load) for n in uses if isinstance(n.ctx, ast.Load)):
+                                rewrites.extend((par[id(n)], fnames.index(par[id(n)].attr)) for n in uses if isinstance(n.ctx, ast.Load))
+                                if isinstance(p_, ast.AnnAssign):
+                                    p_.annotation = ast.Name(id="tuple", ctx=ast.Load())
+                                continue
+                    ok = False
+                    break
+                if not ok:
+                    break
+            if not ok:
+                break
+        if not ok:
+            continue
+        for t in trees.values():
+            for n in ast.walk(t):
+                if isinstance(n, ast.Return) and n.value is not None and id(n.value) in tuples:
+                    n.value = ast.copy_location(tuples[id(n.value)], n.value)
+                    ast.fix_missing_locations(n.value)
+        for fn in producers.values():
+            fn.returns = ast.copy_location(ast.Name(id="tuple", ctx=ast.Load()), fn) if fn.returns is not None else None
+        for a, i in rewrites:
+            sub = ast.Subscript(value=a.value, slice=ast.Constant(value=i), ctx=ast.Load())
+            ast.copy_location(sub, a)
+            ast.fix_missing_locations(sub)
+            # replace the attribute node in place: turn it into the subscript by mutating its parent field
+            a.__class__ = ast.Subscript  # type: ignore[assignment]
+            a.__dict__.clear()
+            a.__dict__.update(sub.__dict__)
+        done[R] = sorted(producers)
+    return done
+
+
+def _own_fn_nodes(fn: ast.AST):
+    """nodes of a function without those of nested functions / classes"""
+    stack = list(ast.iter_child_nodes(fn))
+    while stack:
+        n = stack.pop()
+        yield n
+        if isinstance(n, (ast.FunctionDef, ast.AsyncFunctionDef, ast.ClassDef, ast.Lambda)):
+            continue
+        stack.extend(ast.iter_child_nodes(n))
+
+
+# ------------------------------------------------------------------ a parameter object dissolved into its fields
+
+def repack_dissolved_params(trees: dict[str, ast.Module]) -> dict[str, dict[str, str]]:
+    """`_finalize_attempt(..., decision=decision, ...)` -> `_finalize_attempt(..., action=decision.action,
+    backoff_s=decision.sleep_s, ...)`: a private function recorded in known_signatures.json lost exactly one recorded
+    parameter and gained new ones, and every call site feeds each new parameter with a field read `E.f` of one and the
+    same plain expression E (the same field for that parameter at every site).  The function then still receives the
+    object, field by field.  In memory the recorded parameter comes back (`decision`), its fields are read where the
+    new parameters were used, and the call sites pass `decision=E`.  Reading a field early (at the call) or late (in
+    the body) is the same value when nothing in between writes it - the new parameters are never stored to, and the
+    fields are those of a frozen dataclass / a record never written in the callee."""
+    import json
+    import os
+
+    try:
+        with open(os.path.join(os.path.dirname(os.path.abspath(__file__)), "known_signatures.json")) as fh:
+            sigs = json.load(fh)
+    except (OSError, ValueError):
+        return {}
+    done: dict[str, dict[str, str]] = {}
+    for mod, tree in trees.items():
+        for fn in [st for st in tree.body if isinstance(st, (ast.FunctionDef, ast.AsyncFunctionDef))]:
+            qual = f"{mod}:{fn.name}"
+            rec = sigs.get(qual)
+            if rec is None:
+                continue
+            a = fn.args
+            cur = [x.arg for x in a.posonlyargs + a.args + a.kwonlyargs]
+            want = rec["pos"] + rec["kwonly"]
+            missing = [w for w in want if w not in cur]
+            extra = [c for c in cur if c not in want]
+            if len(missing) != 1 or not extra or any(x.arg in extra for x in a.posonlyargs + a.args):
+                continue  # (new keyword-only parameters only: positions of the others are untouched)
+            obj = missing[0]
+            if any(isinstance(n, ast.Name) and n.id == obj for n in ast.walk(fn)):
+                continue
+            if any(isinstance(n, ast.Name) and n.id in extra and isinstance(n.ctx, (ast.Store, ast.Del)) for n in ast.walk(fn)):
+                continue
+            sites = [n for t in trees.values() for n in ast.walk(t) if isinstance(n, ast.Call) and ((isinstance(n.func, ast.Name) and n.func.id == fn.name) or (isinstance(n.func, ast.Attribute) and n.func.attr == fn.name))]
+            if not sites:
+                continue
+            field_of: dict[str, str] = {}
+            ok = True
+            for c in sites:
+                kws = {k.arg: k.value for k in c.keywords if k.arg is not None}
+                if any(k.arg is None for k in c.keywords) or not all(x in kws for x in extra) or obj in kws:
+                    ok = False
+                    break
+                bases = set()
+                for x in extra:
+                    v = kws[x]
+                    if not (isinstance(v, ast.Attribute) and _simple_arg(v.value)):
+                        ok = False
+                        break
+                    bases.add(ast.dump(v.value))
+                    if field_of.setdefault(x, v.attr) != v.attr:
+                        ok = False
+                        break
+                if not ok or len(bases) != 1:
+                    ok = False
+                    break
+            if not ok or len(set(field_of.values())) != len(field_of):
+                continue
+            # rewrite the callee
+            defaults = {x.arg: d for x, d in zip(a.kwonlyargs, a.kw_defaults)}
+            idx = min(i for i, x in enumerate(a.kwonlyargs) if x.arg in extra)
+            keep = [(x, defaults[x.arg]) for x in a.kwonlyargs if x.arg not in extra]
+            newarg = ast.arg(arg=obj, annotation=None)
+            ast.copy_location(newarg, a.kwonlyargs[idx])
+            keep.insert(min(idx, len(keep)), (newarg, None))
+            a.kwonlyargs = [x for x, _ in keep]
+            a.kw_defaults = [d for _, d in keep]
+            for n in ast.walk(fn):
+                if isinstance(n, ast.Name) and n.id in field_of and isinstance(n.ctx, ast.Load):
+                    new = ast.Attribute(value=ast.Name(id=obj, ctx=ast.Load()), attr=field_of[n.id], ctx=ast.Load())
+                    ast.copy_location(new, n)
+                    ast.fix_missing_locations(new)
+                    n.__class__ = ast.Attribute  # type: ignore[assignment]
+                    n.__dict__.clear()
+                    n.__dict__.update(new.__dict__)
+            for c in sites:
+                base = next(k.value.value for k in c.keywords if k.arg == extra[0])
+                pos = min(i for i, k in enumerate(c.keywords) if k.arg in extra)
+                c.keywords = [k for k in c.keywords if k.arg not in extra]
+                c.keywords.insert(min(pos, len(c.keywords)), ast.keyword(arg=obj, value=base))
+            done[qual] = {x: f"{obj}.{f}" for x, f in field_of.items()}
+    return done
